@@ -82,8 +82,10 @@ func (eval Evaluator) Evaluate(ct *rlwe.Ciphertext, mcp Polynomial) (res *rlwe.C
 		}
 	}
 
-	// Avoids float errors
-	res.Scale = ct.Scale
+	// Avoids float errors: every polynomial has been evaluated with the default scale as target
+	if len(mcp) > 0 {
+		res.Scale = params.DefaultScale()
+	}
 
 	return
 }
